@@ -4,6 +4,7 @@ package c19
 import (
 	"encoding/hex"
 	"fmt"
+	"strings"
 	"testing"
 
 	"github.com/0chain/common/core/util"
@@ -299,8 +300,31 @@ func TestDuplicates(t *testing.T) {
 			ls[i] = wide(fmt.Sprintf("dup/%d", x))
 			hs[i] = leaf(ls[i])
 		}
+		// leaves with a meaning of their own: the digest of the empty string, all zeros, all f
+		if width == 64 && gen.Chance(rt, 35, "specialleaves") {
+			specials := []string{h(""), strings.Repeat("0", 64), strings.Repeat("f", 64), h(h("") + h(""))}
+			for k := gen.Uniform(rt, 1, 3, "nspecial"); k > 0; k-- {
+				i := gen.Uniform(rt, 0, n-1, "specialat")
+				ls[i] = gen.Pick(rt, specials, "special")
+				hs[i] = leaf(ls[i])
+			}
+		}
 		mt := &util.MerkleTree{}
 		mt.ComputeTree(hs)
+		// a leaf list that contains a digest of its own tree (an inner node, or the root, of the tree of the other leaves)
+		if n >= 3 && gen.Chance(rt, 30, "selfreferential") {
+			tree := mt.GetTree()
+			if len(tree) > n {
+				inner := tree[gen.Uniform(rt, n, len(tree)-1, "innernode")]
+				i := gen.Uniform(rt, 0, n-1, "innerat")
+				if len(inner) == width {
+					ls[i] = inner
+					hs[i] = leaf(inner)
+					mt = &util.MerkleTree{}
+					mt.ComputeTree(hs)
+				}
+			}
+		}
 		root := mt.GetRoot()
 		if root != refRoot(ls) {
 			rt.Fatalf("root differs from reference")
